@@ -65,6 +65,7 @@ def run(ctx):
                     x0 = None if x0kind == 'none' else np.array([rng.uniform(-1, 1) for _ in range(n)])
                     seen = {}
                     ncalls = rng.choice([0, 1, 3])
+                    spy_code = rng.choice([7, 7, -1, 0])       # an iteration count, a breakdown code, success
                     user_cb = []
 
                     def spy(A_, b_, x0=None, tol=None, maxiter=None, M=None, callback=None, **kw):
@@ -80,7 +81,7 @@ def run(ctx):
                             if style == 'pyamg' and kw.get('residuals') is not None:
                                 kw['residuals'].append(float(np.linalg.norm(b_ - A_ @ x)))
                         seen['iterates_end'] = x
-                        return x, 7
+                        return x, spy_code
                     res = []
                     case = dict(base, cycle=cyc, style=style, x0=x0kind, callbacks=ncalls)
                     ctx.mark(case)
@@ -94,8 +95,8 @@ def run(ctx):
                         continue
                     ctx.case((bname, mname, cyc, style, x0kind, ncalls), ncalls > 0, sample=case if len(ctx.samples) < 3 else None)
                     ctx.count('spy:' + style)
-                    if info != 7 or not np.array_equal(x, seen['iterates_end']):
-                        ctx.fail('accel/result-not-forwarded', 'solve returned (%r) instead of the accelerator\'s (x, 7)' % (info,), case)
+                    if info != spy_code or not np.array_equal(x, seen['iterates_end']):
+                        ctx.fail('accel/result-not-forwarded', 'solve returned (%r) instead of the accelerator\'s (x, %d)' % (info, spy_code), case)
                     if seen.get('maxiter') != 11:
                         ctx.fail('accel/maxiter-not-forwarded', repr(seen.get('maxiter')), case)
                     if style == 'pyamg' and seen.get('tol') != 1e-7:
@@ -161,6 +162,18 @@ def blackbox(ctx):
              # large enough for a real multilevel iteration (the black box coarsens down to 500 unknowns), badly scaled
              ('poisson-30x30*1e3', sp.csr_array(poisson((30, 30), format='csr') * 1000.0), True),
              ('upwind-30x30*1e3', sp.csr_array(hier.nonsym_matrix(30) * 1000.0), False)]
+    # periodic upwind convection-diffusion-reaction: a nonsymmetric diagonally dominant M-matrix whose row sums EQUAL its
+    # column sums (A 1 = A^T 1), on a 1-D ring and on a periodic 2-D grid
+    nr = 40
+    Sh = sp.csr_array(np.roll(np.eye(nr), 1, axis=1))
+    ring = sp.csr_array(3.0 * sp.eye_array(nr) - 2.0 * Sh - 0.5 * Sh.T)
+    probs.append(('periodic-upwind-ring-40', ring, False))
+    ng = 8
+    S1 = sp.csr_array(np.roll(np.eye(ng), 1, axis=1))
+    I1 = sp.eye_array(ng)
+    torus = sp.csr_array(6.5 * sp.kron(I1, I1) - 2.0 * sp.kron(S1, I1) - 0.5 * sp.kron(S1.T, I1)
+                         - 2.5 * sp.kron(I1, S1) - 1.0 * sp.kron(I1, S1.T))
+    probs.append(('periodic-upwind-torus-8x8', torus, False))
     for name, A, spd in probs:
         n = A.shape[0]
         existing = None
